@@ -298,3 +298,18 @@ extend("C03", "", "maps whose typed value schema also carries a not keyword keep
 extend("C11", "", "compositions of nullable-object branches.")
 extend("C02", "", "a declared array type does not measure its inner arrays against the outer limits.")
 extend("C16", "A-IDENT", "whatever the user's capitalizations (also ones that start lower-case), every name still becomes a valid exported identifier.")
+# ---- round 8 additions
+extend("C01", "A-DECLSET", "Package.AddDecl keeps one of two equal declarations (the alias of a referenced anyOf branch is built anew on every visit); a combined option set (sized, default mode, json tags).")
+extend("C10", "A-DECLSET, self-reference clause", "a declaration reached twice is kept once; a document recursive through # keeps its own root type next to an unrelated file of the same output; one definition referenced from a property, array items and map values is one type.")
+extend("C20", "", "a document recursive through # next to an unrelated file of the same output.")
+extend("C04", "", "the # self-reference member (required keys of nested nodes).")
+extend("C13", "B-RAWPEEK, A-FIXKEYS", "the schema decoders never search the raw text of a document; yamlutils.FixMapKeys changes keys only (values pass through for every text, also yes/on/no/off).")
+extend("C05", "A-IDENT, A-DEDUP", "width-hint formats (float, double, int32, int64) keep every bound; three same-named definitions keep their own limits.")
+extend("C06", "A-IDENT, A-DEDUP", "three same-named definitions keep their own limits.")
+extend("C08", "", "three same-named definitions are bound to the declaration of the equal one.")
+extend("C07", "", "arrays of null items keep their limits.")
+extend("C02", "", "a nested length check measures the element its loops select; number:float is a float64.")
+extend("C03", "", "maps whose value schema is an untyped enum or a composition of objects; the anything-schema as property and items.")
+extend("C09", "", "map-typed object defaults keep their entries (known finding: typed additionalProperties).")
+extend("C17", "A-MAP (decoder parity of field types)", "a property that may be null is a pointer when its type has unmarshalers; a JSON number is a float64.")
+extend("C18", "", "B-EOF demands the io.EOF side of a further read (Decoder.More is no end-of-input test).")
